@@ -1,0 +1,179 @@
+// Copyright 2026 foyer Project Authors
+//
+// Licensed under the Apache License, Version 2.0 (the "License");
+// you may not use this file except in compliance with the License.
+// You may obtain a copy of the License at
+//
+//     http://www.apache.org/licenses/LICENSE-2.0
+//
+// Unless required by applicable law or agreed to in writing, software
+// distributed under the License is distributed on an "AS IS" BASIS,
+// WITHOUT WARRANTIES OR CONDITIONS OF ANY KIND, either express or implied.
+// See the License for the specific language governing permissions and
+// limitations under the License.
+
+//! Verification-only seams. Compiled only with `--cfg foyer_verif`; never part of a shipped build.
+//!
+//! Under the cfg the locks, atomics and threads foyer uses resolve to the primitives of a controlled scheduler
+//! (shuttle), so a deterministic simulator decides every interleaving. The lock wrappers additionally count, per
+//! simulated task, how many foyer locks are currently held, and a tiny event sink lets the simulator observe
+//! decisions that are otherwise invisible from the public API (e.g. an entry shed by the flush buffer).
+
+#![allow(missing_docs)]
+
+use std::{cell::RefCell, collections::HashMap};
+
+type Sink = Box<dyn Fn(&'static str, u64, u64)>;
+
+std::thread_local! {
+    static HELD: RefCell<HashMap<usize, usize>> = RefCell::new(HashMap::new());
+    static SINK: RefCell<Option<Sink>> = const { RefCell::new(None) };
+}
+
+fn me() -> usize {
+    shuttle::current::get_current_task().map(usize::from).unwrap_or(usize::MAX)
+}
+
+fn held_inc() {
+    let me = me();
+    HELD.with(|h| *h.borrow_mut().entry(me).or_insert(0) += 1);
+}
+
+fn held_dec() {
+    let me = me();
+    HELD.with(|h| {
+        if let Some(c) = h.borrow_mut().get_mut(&me) {
+            *c = c.saturating_sub(1);
+        }
+    });
+}
+
+/// Number of foyer locks the calling simulated task currently holds.
+pub fn locks_held() -> usize {
+    let me = me();
+    HELD.with(|h| h.borrow().get(&me).copied().unwrap_or(0))
+}
+
+/// Forget all per-execution state (start of a new simulated execution).
+pub fn reset() {
+    HELD.with(|h| h.borrow_mut().clear());
+    SINK.with(|s| *s.borrow_mut() = None);
+}
+
+/// Install the event sink of the simulator for the current execution.
+pub fn set_event_sink(sink: impl Fn(&'static str, u64, u64) + 'static) {
+    SINK.with(|s| *s.borrow_mut() = Some(Box::new(sink)));
+}
+
+/// Report an internal decision to the simulator. No-op unless a sink is installed.
+pub fn event(kind: &'static str, a: u64, b: u64) {
+    SINK.with(|s| {
+        if let Some(sink) = s.borrow().as_ref() {
+            sink(kind, a, b)
+        }
+    });
+}
+
+pub mod sync {
+    //! `parking_lot`-shaped and `std`-shaped locks, atomics and threads backed by the controlled scheduler.
+    use std::ops::{Deref, DerefMut};
+
+    pub mod atomic {
+        pub use shuttle::sync::atomic::*;
+    }
+
+    pub mod thread {
+        pub use shuttle::thread::{JoinHandle, spawn, yield_now};
+    }
+
+    macro_rules! guard {
+        ($name:ident, $inner:ident) => {
+            pub struct $name<'a, T>(Option<shuttle::sync::$inner<'a, T>>);
+            impl<'a, T> $name<'a, T> {
+                fn new(inner: shuttle::sync::$inner<'a, T>) -> Self {
+                    super::held_inc();
+                    Self(Some(inner))
+                }
+            }
+            impl<T> Deref for $name<'_, T> {
+                type Target = T;
+                fn deref(&self) -> &T {
+                    self.0.as_ref().unwrap()
+                }
+            }
+            impl<T> Drop for $name<'_, T> {
+                fn drop(&mut self) {
+                    super::held_dec();
+                    drop(self.0.take());
+                }
+            }
+            impl<T: std::fmt::Debug> std::fmt::Debug for $name<'_, T> {
+                fn fmt(&self, f: &mut std::fmt::Formatter<'_>) -> std::fmt::Result {
+                    self.0.as_ref().unwrap().fmt(f)
+                }
+            }
+        };
+    }
+    guard!(MutexGuard, MutexGuard);
+    guard!(RwLockReadGuard, RwLockReadGuard);
+    guard!(RwLockWriteGuard, RwLockWriteGuard);
+    impl<T> DerefMut for MutexGuard<'_, T> {
+        fn deref_mut(&mut self) -> &mut T {
+            self.0.as_mut().unwrap()
+        }
+    }
+    impl<T> DerefMut for RwLockWriteGuard<'_, T> {
+        fn deref_mut(&mut self) -> &mut T {
+            self.0.as_mut().unwrap()
+        }
+    }
+
+    /// `parking_lot::Mutex` look-alike.
+    #[derive(Debug, Default)]
+    pub struct Mutex<T>(shuttle::sync::Mutex<T>);
+    impl<T> Mutex<T> {
+        pub fn new(t: T) -> Self {
+            Self(shuttle::sync::Mutex::new(t))
+        }
+        pub fn lock(&self) -> MutexGuard<'_, T> {
+            MutexGuard::new(self.0.lock().unwrap_or_else(|e| e.into_inner()))
+        }
+    }
+
+    /// `parking_lot::RwLock` look-alike.
+    #[derive(Debug, Default)]
+    pub struct RwLock<T>(shuttle::sync::RwLock<T>);
+    impl<T> RwLock<T> {
+        pub fn new(t: T) -> Self {
+            Self(shuttle::sync::RwLock::new(t))
+        }
+        pub fn read(&self) -> RwLockReadGuard<'_, T> {
+            RwLockReadGuard::new(self.0.read().unwrap_or_else(|e| e.into_inner()))
+        }
+        pub fn write(&self) -> RwLockWriteGuard<'_, T> {
+            RwLockWriteGuard::new(self.0.write().unwrap_or_else(|e| e.into_inner()))
+        }
+    }
+
+    pub mod std_like {
+        //! `std::sync::RwLock` look-alike (lock methods return a `Result`).
+        pub use super::{RwLockReadGuard, RwLockWriteGuard};
+
+        #[derive(Debug)]
+        pub struct Poisoned;
+
+        #[derive(Debug, Default)]
+        pub struct RwLock<T>(super::RwLock<T>);
+        impl<T> RwLock<T> {
+            pub fn new(t: T) -> Self {
+                Self(super::RwLock::new(t))
+            }
+            pub fn read(&self) -> Result<RwLockReadGuard<'_, T>, Poisoned> {
+                Ok(self.0.read())
+            }
+            pub fn write(&self) -> Result<RwLockWriteGuard<'_, T>, Poisoned> {
+                Ok(self.0.write())
+            }
+        }
+    }
+}
